@@ -84,7 +84,7 @@ func IntValue(r *mon.Rand) int64 {
 	return int64(r.U64())
 }
 
-var sampleStrings = []string{"", "a", "aa", "kid-1", "application/cose", "text/plain", "héllo", "日本語", "x y", "a/b", "1", "-1", "4", "33", "99", "255",
+var sampleStrings = []string{"", "a", "aa", "kid-1", "application/cose", "text/plain", "héllo", "日本語", "x y", "a/b", "1", "-1", "4", "33", "99", "255", "7", "11", "9", "12", "2", "0",
 	// well-formed UTF-8 that naive validity tests trip over: a genuine U+FFFD, 4-byte runes, NUL, BOM, combining marks,
 	// line separators, the last code point, DEL
 	"\ufffd", "a\ufffdb", "\U0001F600", "\x00", "a\x00b", "\ufeffbom", "e\u0301", "\u2028\u2029", "\U0010FFFF", "\x7f", "\u00a0", "\ud7ff\ue000"}
@@ -251,7 +251,7 @@ func GoHeader(r *mon.Rand, o HeaderOpts, forbidIV bool) (m map[any]any, usedIV i
 			if r.Bool() {
 				put(3, SpellInt(r, int64(r.Intn(70000))))
 			} else {
-				put(3, mon.Pick(r, "application/cose", "text/plain", "a/b", "text/plain; charset=utf-8", "a/b;c=d"))
+				put(3, mon.Pick(r, "application/cose", "text/plain", "a/b", "text/plain; charset=utf-8", "a/b;c=d", "application/EDI-X12", "Text/Plain", "a/B+json"))
 			}
 		case 1: // kid
 			put(4, BytesValue(r))
